@@ -170,6 +170,7 @@ func runR17_9(c *kit.Ctx) {
 			// a dial that failed stores a nil connection: the return under err != nil right after
 			// the dial needs no cleanup; it is the first return after the store in the same block
 			// region, recognised by the store being the last relevant instruction before it
+			nbad := 0
 			for _, r := range covered.FailingReturns() {
 				direct := false
 				// the failing return is reached straight from the dial's own error test
@@ -184,10 +185,11 @@ func runR17_9(c *kit.Ctx) {
 					continue
 				}
 				n++
+				nbad++
 				c.Bad("R17.9", k.key(fn, "socket without cleanup"), posOf(r), "a return is reachable after a dial with neither a Close of the dialled socket nor a deferred close registered for it: when the handshake on that socket fails it stays open and is counted by no limit")
 			}
 			n++
-			if len(covered.FailingReturns()) == 0 {
+			if nbad == 0 {
 				c.OK("R17.9", k.key(fn, "cleanup registered for dialled sockets"), fn.Pos(), "every dialled socket is closed or has a deferred close on all paths to a return")
 			}
 		}
